@@ -17,11 +17,17 @@
      - totality (C02_total, from ParseTotal.v): on every token stream that contains its end-of-input or error
        token - every stream the scanner delivers (C03_scanner_total) - the answer is POk or PErr: the fuel always
        suffices and no action meets an impossible tree, also on rejected inputs.
-   NOT proved: that a syntax error is reported at the first token that cannot continue a derivation (the
-   viable-prefix property of the LALR automaton; the model's recursive descent is proved equivalent on
-   acceptance and on semantic errors only).  That is tied on every run by the exhaustive-bounded token-sequence
-   correspondence against the real library and against a reference parser written from the manual
-   (pygen/refparse.py).
+     - syntax errors (ParseSyntax.v): when the answer is "syntax error", the error state points at a token t of the
+       input - the line and file reported are those of t - such that (1) the same error at the same token is the
+       answer whatever follows t (the parser decides on the tokens up to t alone), (2) no derivable text begins with
+       the tokens up to and including t, and (3) the tokens before t do extend to an accepted - hence derivable -
+       input, and so does every shorter prefix: t is the FIRST token that cannot continue a derivation
+       (C02_syntax_error_first_offence, C02_syntax_error_earlier_viable; C02_derivable_answer: a derivable text is
+       never answered "syntax error").  Proofs: locality, fuel monotonicity and a completion lemma (closing brackets,
+       "= 0" after a name, "0" after "=") by mutual induction over the five parsing functions.
+   The syntax-error position is also compared on every run, against the real library (whose LALR automaton with default
+   reductions must report the same token: that is a statement about grammar.c, tied by correspondence) and against a
+   reference parser written from the manual (pygen/refparse.py), by exhaustive-bounded token-sequence enumeration.
    The parser model is a recursive-descent function performing the grammar.y actions in bison's order;
    grammar.c's LALR tables are not translated (DESIGN.md section 8).  Composition with the scanner: the
    tokens are those of C18.
@@ -30,7 +36,7 @@
 From Coq Require Import List ZArith Bool.
 Import ListNotations.
 From LC Require Import Base Tree Fp Lookup Api ScanAction Tokens Lexer Parser GrammarFacts Reader Writer WriterFacts LexWrite ParseWrite
-  ParseComplete ParseFail ParseExact ParseTotal ParseNames Bisim.
+  ParseComplete ParseFail ParseExact ParseTotal ParseNames ParseSyntax Bisim.
 From LC.gen Require Import Consts.
 Local Open Scope Z_scope.
 
@@ -252,3 +258,49 @@ Example C02_example_mismatch :
   | PErr PErrMismatch s => epos s = P 2
   | _ => False end.
 Proof. split; [reflexivity|]. split; vm_compute; reflexivity. Qed.
+
+
+(* ------------------------------------------------------------------------------------------------------- *)
+(* syntax errors are reported at the first token that cannot continue a derivation (ParseSyntax.v)          *)
+(* ------------------------------------------------------------------------------------------------------- *)
+
+(* a derivable token list is answered POk, or a semantic error - never "syntax error" *)
+Theorem C02_derivable_answer : forall ov root0, s_pl root0 = PGroup -> s_kids root0 = [] -> forall lts ts junk,
+  map lt_tok lts = ts ++ TkEOF :: junk -> Dsettings ts ->
+  (exists s, p_config ov (mkP root0 lts false O 0 None) = POk s) \/
+  (exists e s, p_config ov (mkP root0 lts false O 0 None) = PErr e s /\ (e = PErrDup \/ e = PErrMismatch)).
+Proof. exact derivable_answer. Qed.
+Print Assumptions C02_derivable_answer.
+
+Theorem C02_syntax_error_first_offence : forall ov root0, s_pl root0 = PGroup -> s_kids root0 = [] -> forall lts s',
+  p_config ov (mkP root0 lts false O 0 None) = PErr PErrSyntax s' ->
+  exists pre t rest,
+    lts = pre ++ t :: rest /\ p_toks s' = t :: rest /\ p_la s' = true /\
+    p_line s' = lt_line t /\ p_file s' = lt_file t /\
+    (* (1) whatever follows the offending token: the same error in the same state *)
+    (forall rest', has_stop (map lt_tok (pre ++ t :: rest')) ->
+       p_config ov (mkP root0 (pre ++ t :: rest') false O 0 None) = PErr PErrSyntax (retoks s' (t :: rest'))) /\
+    (* (2) no derivable text begins with the tokens up to and including the offending one *)
+    (forall rest' ts junk, map lt_tok (pre ++ t :: rest') = ts ++ TkEOF :: junk -> ~ Dsettings ts) /\
+    (* (3) the tokens before the offending one extend to an accepted input *)
+    (exists suffix s3, p_config ov (mkP root0 (pre ++ suffix) false O 0 None) = POk s3).
+Proof. exact syntax_error_first_offence. Qed.
+Print Assumptions C02_syntax_error_first_offence.
+
+(* every shorter prefix is viable too: no earlier token is an offence *)
+Theorem C02_syntax_error_earlier_viable : forall ov root0, s_pl root0 = PGroup -> s_kids root0 = [] -> forall lts s',
+  p_config ov (mkP root0 lts false O 0 None) = PErr PErrSyntax s' ->
+  exists pre t rest, lts = pre ++ t :: rest /\ p_toks s' = t :: rest /\
+    forall pre1 pre2, pre = pre1 ++ pre2 -> exists suffix s3, p_config ov (mkP root0 (pre1 ++ suffix) false O 0 None) = POk s3.
+Proof. exact syntax_error_earlier_viable. Qed.
+Print Assumptions C02_syntax_error_earlier_viable.
+
+(* non-vacuity:  a = ( 1 , } ) ; <end>  - the error is at the closing brace in the middle, line 3; the tokens before
+   it followed by  ) <end>  are accepted *)
+Example C02_syntax_error_example :
+  exists pre t rest s',
+    p_config false (mkP new_root ParseSyntax.ex_lts false O 0 None) = PErr PErrSyntax s' /\
+    ParseSyntax.ex_lts = pre ++ t :: rest /\ p_toks s' = t :: rest /\ t = ParseSyntax.ex_bad /\
+    (forall rest' ts junk, map lt_tok (pre ++ t :: rest') = ts ++ TkEOF :: junk -> ~ Dsettings ts) /\
+    (exists suffix s3, p_config false (mkP new_root (pre ++ suffix) false O 0 None) = POk s3).
+Proof. exact ParseSyntax.ex_first_offence. Qed.
